@@ -1,4 +1,5 @@
 import Haiway.Proofs.Completion
+import Haiway.Proofs.ScopeRun
 /-!
 # C09 – scope completion fires exactly once, after the whole subtree has been left
 
@@ -109,6 +110,15 @@ theorem time_frozen (ops more : List Op) (n : Nat) :
   have := run_frozen more s n hc
   refine ⟨this.1, ?_⟩
   simp [time, hc, this.1, this.2]
+
+/-- C09.program_histories_wellformed: whatever a program does through the public API of the program-level
+model `Haiway.ScopeRun` (any interleaving of tasks constructing, entering, leaving scopes, `ctx.spawn` members
+delaying their owner's exit, plain tasks outliving it, held scope objects entered late or never), the
+completion protocol is only ever driven by a well-formed operation sequence – so every theorem above holds in
+every reachable state of that system. -/
+theorem program_histories_wellformed (evs : List ScopeRun.Ev) :
+    ∃ ops, wf {} ops = true ∧ (ScopeRun.run ScopeRun.init evs).comp = run {} ops :=
+  ScopeRun.run_reach evs ScopeRun.init ScopeRun.compReach_init
 
 /-! ## The full liveness statement and the finding `completion.never-entered.blocks-ancestor`
 
